@@ -20,7 +20,7 @@ RULE = (
     "Hypothesis-generated cases: commit_type spelling drawn from {None, 'full', 'links_only', 'none' in lower/upper/mixed "
     "case, 'FULL', 'LINK_ONLY', 'NO_COMMIT', 'link_only', 'no_commit'}, value in {str, bytes, None, picklable}, operation list "
     "over {keep, change code + keep (fresh process, or the same process and store object, also changing back to an earlier version), load, reopen in a fresh process, rewrite the blob metadata to the legacy reference of the "
-    "same kind (dbfs.string / dbfs.bytes / dbfs.pickle), second path kept with the same function}. After every step the tree "
+    "same kind (dbfs.string / dbfs.bytes / dbfs.pickle; also reduced to the codec reference alone), second path kept with the same function}. After every step the tree "
     "under the fake DBFS root is compared with the commit type: 'full' = byte-identical copy at <data>/<path> + redirect record "
     "<data>/_dds_meta/<path> naming the key; 'links only' = record only; 'none' = nothing under <data>; keep always returns the "
     "right value; load returns it iff the record exists. Also the local store's legacy reference default.pandas_local. "
@@ -83,7 +83,7 @@ def case_strategy():
         st.tuples(st.integers(-3, 3), st.text(max_size=3)).map(lambda t: {"k": "pickle", "v": enc(t)}),
     )
     op = st.sampled_from(["keep", "rekeep", "load", "reopen", "legacy", "keep_both", "keep", "new_view", "faulty_keep", "same_once", "same_twice",
-                          "rekeep_live", "revert_live", "rekeep_live", "revert_live"])
+                          "rekeep_live", "revert_live", "rekeep_live", "revert_live", "legacy_min"])
 
     @st.composite
     def gen(draw):
@@ -299,13 +299,15 @@ def check_case(case, ev=None, scratch=None):
                 w.call("call", module="vf.props.c19", func="_fail_next_cp", args=["<never>"])
                 do_keep("f", ["/out/v"], when + " (retry after a failed copy)")
                 stats["rekeep"] += 1
-            elif op == "legacy":
+            elif op in ("legacy", "legacy_min"):
                 bd = os.path.join(dbroot, "internal", "blobs")
                 for n in os.listdir(bd):
                     if n.endswith(".meta"):
                         with open(os.path.join(bd, n)) as f:
                             m = json.load(f)
                         m["protocol"] = m["protocol"].replace("local.", "dbfs.")
+                        if op == "legacy_min":
+                            m = {"protocol": m["protocol"]}   # metadata that names the codec and nothing else
                         with open(os.path.join(bd, n), "w") as f:
                             json.dump(m, f)
                 stats["legacy"] = True
